@@ -15,16 +15,16 @@ ALL_INVS = {
     'C19': ['InvPartsSubset'],
 }
 ACTS = {
-    'C03': {'Hist', 'Events', 'Prev', 'Next'},
+    'C03': {'Hist', 'Events', 'Counts', 'Prev', 'Next'},
     'C04': {'Hist', 'Jumps', 'Mono'},
-    'C05': {'Hist', 'Jumps', 'Matrix', 'Counter', 'Edges', 'Occ', 'AtomLoc', 'OccType', 'EdgeCounts', 'JumpDiff', 'Split', 'Rates'},
+    'C05': {'Hist', 'Counts', 'Jumps', 'Matrix', 'Counter', 'Edges', 'Occ', 'AtomLoc', 'OccType', 'EdgeCounts', 'JumpDiff', 'Split', 'Rates'},
     'C19': {'Hist', 'Split', 'TrajSplit', 'Rates'},
 }
 # verdicts that belong to another property's clause are not judged by this property
 JUDGED = {
-    'C03': {'Events', 'Prev', 'Next'},
+    'C03': {'Events', 'Counts', 'Prev', 'Next'},
     'C04': {'Jumps', 'Mono'},
-    'C05': {'Matrix', 'Counter', 'Edges', 'Occ', 'AtomLoc', 'OccType', 'EdgeCounts', 'JumpDiff', 'Rates'},
+    'C05': {'Counts', 'Matrix', 'Counter', 'Edges', 'Occ', 'AtomLoc', 'OccType', 'EdgeCounts', 'JumpDiff', 'Rates'},
     'C19': {'Split', 'TrajSplit'},
 }
 
